@@ -87,7 +87,12 @@ func c02MakeLog(name string, chunks [][]string, hours []int, gaps []int) c02Log 
 				sess[line[1:]] = idx
 				e.Type, e.Data = robust.CreateSession, "auth-"+line[1:]+"-0123456789"
 			case strings.HasPrefix(line, "-"):
-				e.Type, e.Session, e.Data = robust.DeleteSession, robust.Id{Id: sess[line[1:]]}, "gone"
+				// "-A" or "-A <quit message>" (the quit message of DELETE is chosen by the client)
+				name, reason := line[1:], "gone"
+				if k := strings.Index(name, " "); k > 0 {
+					name, reason = name[:k], name[k+1:]
+				}
+				e.Type, e.Session, e.Data = robust.DeleteSession, robust.Id{Id: sess[name]}, reason
 			default:
 				who, data, _ := strings.Cut(line, ": ")
 				for name, at := range sess {
